@@ -52,6 +52,18 @@ EXPRS = [
     ("def f(x) do x + a end; f(b) * c", ["def f(x) do x + a; end; f(b) * c;", "def f(x) do (x + a) end; (f(b) * c)"]),
     ("def r = 0; for x in [a, b, c] do r += x end; r", ["def r = 0; for x in [a, b, c] do r += x; end; r;"]),
     ("def r = a; while r < b do r += 7 end; r", ["def r = a; while r < b do r += 7; end; r;"]),
+    # redundant parentheses around the collection of a loop / comprehension, also behind keys / values / entries
+    ("def m = <<<1 => a, 2 => b>>>; def r = 0; for k in keys m do r += k end; r",
+     ["def m = <<<1 => a, 2 => b>>>; def r = 0; for k in keys (m) do r += k end; r",
+      "def m = <<<1 => a, 2 => b>>>; def r = 0; for k in keys(m) do (r += k) end; (r)"]),
+    ("def m = <<<1 => a, 2 => b>>>; def r = 0; for v in values m do r += v end; r",
+     ["def m = <<<1 => a, 2 => b>>>; def r = 0; for v in values (m) do r += v end; r"]),
+    ("def m = <<<1 => a, 2 => b>>>; def r = 0; for e in entries m do r += e[1] end; r",
+     ["def m = <<<1 => a, 2 => b>>>; def r = 0; for e in entries (m) do r += (e[1]) end; r"]),
+    ("def m = <<<1 => a, 2 => b>>>; [v + c for v in values m]",
+     ["def m = <<<1 => a, 2 => b>>>; [v + c for v in values (m)]", "def m = <<<1 => a, 2 => b>>>; [(v + c) for v in values (m)]"]),
+    ("def r = 0; for x in [a, b] do r += x end; r", ["def r = 0; for x in ([a, b]) do r += (x) end; r"]),
+    ("def r = a; while r < b do r += 2000 end; r", ["def r = a; while (r < b) do r += 2000 end; r"]),
     ("if a < b then do a end elif a < c then do b end else do c end",
      ["if a < b then do a; end elif a < c then do b; end else do c; end;", "if (a < b) then do (a) end elif (a < c) then do (b) end else do (c) end"]),
 ]
